@@ -8,6 +8,7 @@ import (
 	"fmt"
 	"os"
 	"path/filepath"
+	"runtime/debug"
 	"sort"
 	"strconv"
 	"strings"
@@ -47,7 +48,8 @@ func main() {
 					code = 2
 					return
 				}
-				panic(r)
+				fmt.Printf("ANALYSIS-ERROR: internal panic in the checker: %v\n%s\n", r, debug.Stack())
+				code = 2
 			}
 		}()
 		switch {
